@@ -338,7 +338,7 @@ def cases_nd(draw, tier="quick"):
         # a full tuple of integers (negative ones included): returns the cell's edges and content
         parts = [["int", draw(st.integers(-shape[a], shape[a] - 1))] for a in range(d)]
         return {"spec": spec, "mode": "index", "index": parts, "as_tuple": True}
-    k = draw(st.integers(1, d + (1 if draw(st.integers(0, 6)) == 0 else 0)))
+    k = d + 1 if draw(st.integers(0, 5)) == 0 else draw(st.integers(1, d))  # d + 1 indices: one too many
     parts = [draw(part(min(a, d - 1))) for a in range(k)]
     return {"spec": spec, "mode": "index", "index": parts, "as_tuple": draw(st.booleans())}
 
